@@ -105,4 +105,64 @@ theorem strtoll_fmt (v : Int) (h1 : -9223372036854775808 ≤ v) (h2 : v ≤ 9223
     rw [if_neg (by omega)]
     omega
 
+/-! ### arbitrary numerals: white space, optional sign, digits (leading zeros allowed), trailing junk -/
+theorem skipSpace_append (ws rest : List Nat) (hws : ∀ c ∈ ws, isSpace c = true) :
+    skipSpace (ws ++ rest) = skipSpace rest := by
+  induction ws with
+  | nil => rfl
+  | cons c cs ih =>
+    have hc : isSpace c = true := hws c (List.mem_cons_self ..)
+    simp only [List.cons_append, skipSpace, hc, if_true]
+    exact ih (fun x hx => hws x (List.mem_cons_of_mem _ hx))
+
+theorem skipSpace_nonspace (c : Nat) (cs : List Nat) (h : isSpace c = false) : skipSpace (c :: cs) = c :: cs := by
+  simp [skipSpace, h]
+
+theorem parseDigits_numeral (ds : List Nat) : ∀ (acc : Nat) (junk : List Nat), (∀ d ∈ ds, isDigit d = true) →
+    (∀ c tl, junk = c :: tl → isDigit c = false) →
+    parseDigits acc (ds ++ junk) = ds.foldl (fun a d => a * 10 + (d - 48)) acc := by
+  induction ds with
+  | nil =>
+    intro acc junk _ hj
+    cases junk with
+    | nil => rfl
+    | cons c tl => simp [parseDigits, hj c tl rfl]
+  | cons d ds ih =>
+    intro acc junk hd hj
+    have h0 : isDigit d = true := hd d (List.mem_cons_self ..)
+    simp only [List.cons_append, parseDigits, h0, if_true, List.foldl_cons]
+    exact ih _ junk (fun x hx => hd x (List.mem_cons_of_mem _ hx)) hj
+
+theorem digit_facts (d : Nat) (h : isDigit d = true) : isSpace d = false ∧ d ≠ 45 ∧ d ≠ 43 := by
+  simp [isDigit] at h
+  refine ⟨?_, by omega, by omega⟩
+  simp [isSpace]; omega
+
+/-- `strtoMag` of a numeral: sign flag and `Spec.decimalValue` of the digit string -/
+theorem strtoMag_numeral (ws sign ds junk : List Nat) (hws : ∀ c ∈ ws, isSpace c = true)
+    (hsign : sign = [] ∨ sign = [43] ∨ sign = [45]) (hds : ∀ d ∈ ds, isDigit d = true) (hne : ds ≠ [])
+    (hj : ∀ c tl, junk = c :: tl → isDigit c = false) :
+    strtoMag (ws ++ (sign ++ (ds ++ junk))) = (decide (sign = [45]), Spec.decimalValue ds) := by
+  unfold strtoMag Spec.decimalValue
+  rw [skipSpace_append ws _ hws]
+  rcases hsign with rfl | rfl | rfl
+  · cases ds with
+    | nil => exact absurd rfl hne
+    | cons d ds' =>
+      obtain ⟨f1, f2, f3⟩ := digit_facts d (hds d (List.mem_cons_self ..))
+      rw [List.nil_append, List.cons_append, skipSpace_nonspace _ _ f1]
+      simp only [if_neg f2, if_neg f3]
+      rw [← List.cons_append, parseDigits_numeral _ 0 junk hds hj]
+      simp
+  · have hs : isSpace 43 = false := by decide
+    rw [List.cons_append, List.nil_append, skipSpace_nonspace _ _ hs]
+    simp only [show ¬ (43 : Nat) = 45 by decide, if_false, if_true]
+    rw [parseDigits_numeral _ 0 junk hds hj]
+    simp
+  · have hs : isSpace 45 = false := by decide
+    rw [List.cons_append, List.nil_append, skipSpace_nonspace _ _ hs]
+    simp only [if_true]
+    rw [parseDigits_numeral _ 0 junk hds hj]
+    simp
+
 end Nstd.Codec
